@@ -276,7 +276,18 @@ func runPluginNames() int {
 		// elements, relative): containment is about the directory, not about how its path was written
 		rootGiven := spell(root, filepath.Join(caseDir, "root-parent-link"), mix(*flagSeed, c.ID, "spell-root"))
 		before := snapTree(top)
-		mgr := plugin.NewCLIManager(dir.NewSysFS(rootGiven))
+		var mgr *plugin.CLIManager
+		if wd0, err := os.Getwd(); err == nil && !filepath.IsAbs(rootGiven) && !strings.HasPrefix(rootGiven, "..") {
+			// a relative root means what it means WHEN IT IS USED: the manager is made while the process is in another working
+			// directory (where the same relative path leads to a directory of no interest), then the process comes back
+			elsewhere := filepath.Join(caseDir, "another-working-directory")
+			must(os.MkdirAll(filepath.Join(elsewhere, rootGiven, "ghost"), 0755))
+			must(os.Chdir(elsewhere))
+			mgr = plugin.NewCLIManager(dir.NewSysFS(rootGiven))
+			must(os.Chdir(wd0))
+		} else {
+			mgr = plugin.NewCLIManager(dir.NewSysFS(rootGiven))
+		}
 		ctx := context.Background()
 		obs := PNObs{Execs: [][]string{}, Changed: [][]string{}, ListOK: true}
 		var opErr error
